@@ -182,14 +182,23 @@ def cabs_state(st):
         tabs.append('(%s, {| a_items := %s; a_indexes := %s |})' % (cstr(tn), items, clist(ixs)))
     return clist(tabs)
 
-def cexpected(op, ob, sdk):
-    st = ob.get('state')
-    return '{| x_obs := {| o_res := %s; o_pay := %s; o_fired := %s |}; x_state := %s |}' % (
-        cres(ob['r']), cpayload(op, ob, sdk), clist([str(i) for i in ob.get('fired') or []]),
-        'None' if st is None else '(Some %s)' % cabs_state(st))
+FULL_VIEW = dict(res=True, pay=True, fired=True, state=True, inv=True)
+NO_VIEW = dict(res=False, pay=False, fired=False, state=False, inv=False)
 
-def ccase(ops, obs, sdk):
-    return '(%s,\n   %s)' % (clist([cop(o) for o in ops]), clist([cexpected(o, x, sdk) for o, x in zip(ops, obs)]))
+def cview(v):
+    return '{| v_res := %s; v_pay := %s; v_fired := %s; v_state := %s; v_inv := %s |}' % tuple(
+        cbool(v.get(k, False)) for k in ('res', 'pay', 'fired', 'state', 'inv'))
+
+def cexpected(op, ob, sdk, view=None):
+    st = ob.get('state')
+    return '{| x_obs := {| o_res := %s; o_pay := %s; o_fired := %s |}; x_state := %s; x_view := %s |}' % (
+        cres(ob['r']), cpayload(op, ob, sdk), clist([str(i) for i in ob.get('fired') or []]),
+        'None' if st is None else '(Some %s)' % cabs_state(st), cview(view or FULL_VIEW))
+
+def ccase(ops, obs, sdk, viewf=None):
+    """viewf(index, op) -> view dict for that step (default: compare everything)"""
+    return '(%s,\n   %s)' % (clist([cop(o) for o in ops]),
+                             clist([cexpected(o, x, sdk, viewf(i, o) if viewf else None) for i, (o, x) in enumerate(zip(ops, obs))]))
 
 def state_invariants(st):
     """Structural invariants evaluated directly on the implementation's dump; returns a list of violations."""
